@@ -99,5 +99,6 @@ def walk_unfold(eng, v, segs, m):
     anyel = z3.Exists([j], z3.And(j >= 0, j < z3.Length(items), walk(items[j], rest, m)))
     step = z3.If(z3.Or(z3.Not(V.is_dict(v)), child == ABSENT), False,
                  z3.If(V.is_list(child), anyel, walk(child, rest, m)))
-    base = (m == z3.If(V.is_str(v), V.s(v), pystr(v)))
+    from pyvc.values import str_ok
+    base = z3.If(V.is_str(v), m == V.s(v), z3.And(str_ok(v), m == pystr(v)))
     return walk(v, segs, m) == z3.If(n == 0, base, step)
